@@ -34,6 +34,9 @@ FULL_TAMPER = ("NIST256p", "NIST192p", "SECP256k1", "BRAINPOOLP160r1", "SECP112r
 MSG = b"BALTECH!"
 
 
+COFACTOR_T = {"SECP112r2": 0xB1FD8DE127D4656B573EB513984D}      # x of the point of order two (checked against the curve at use)
+
+
 def enc_fns(enc, canon):
     name = "sigencode_" + enc + ("_canonize" if canon else "")
     return getattr(U, name), getattr(U, "sigdecode_" + enc)
@@ -243,6 +246,21 @@ def run_case(ctx, case):
             if res != "bad":
                 o.cls = "accepts-forgery"
                 return o.viol("verify|accepts-%s" % label, "%s: verification with %s gave %r" % (what, label, res))
+        if cur.name in COFACTOR_T:
+            # curve with a cofactor: Q + T (T the point of order two) is ANOTHER key - if a loader takes it at all, it must not
+            # verify Q's signature
+            T = (COFACTOR_T[cur.name], 0)
+            lam = (Q[1] - T[1]) * pow(Q[0] - T[0], -1, cv.p) % cv.p
+            x3 = (lam * lam - T[0] - Q[0]) % cv.p
+            y3 = (lam * (T[0] - x3) - T[1]) % cv.p
+            try:
+                twin = VerifyingKey.from_string(x3.to_bytes(size, "big") + y3.to_bytes(size, "big"), curve=cur)
+            except Exception:
+                twin = None
+            if twin is not None and verify_outcome(twin, sig_d, msg, hf, decf) == "ok":
+                o.cls = "accepts-forgery"
+                return o.viol("verify|accepts-cofactor-twin", "%s: the key Q + T (T of order two; a point outside the prime-order subgroup) is accepted "
+                              "by the loader and verifies a signature made for Q" % what)
         return o
     hf = hashlib.sha256
     if kind == "keyhist":
